@@ -64,19 +64,20 @@ Clauses2(c) ==
       ok == o.cls = "ok"
       vis == VisitsOf(tree)
       shouldRun == disc.accept /\ ~ovl
+      xs == c.site \in {"run", "outparse"}
   IN
   \* ---- C16-ish: only JaqalError may escape, and the call terminates
-  F("terminates", o.cls = "timeout")
-  \cup F("error_type", valid /\ o.cls \notin {"ok", "jaqal_error", "timeout"})
+  F("terminates", xs /\ o.cls = "timeout")
+  \cup F("error_type", xs /\ valid /\ o.cls \notin {"ok", "jaqal_error", "timeout"})
   \* ---- C12
-  \cup F("accept_iff", valid /\ o.cls # "timeout" /\ ~ovl /\ (ok # disc.accept))
-  \cup F("rule_named", valid /\ ~ovl /\ ~disc.accept /\ o.cls = "jaqal_error" /\ o.family \notin disc.rules)
-  \cup F("n_subcircuits", valid /\ shouldRun /\ ok /\ Len(o.subs) # Len(disc.pairs))
+  \cup F("accept_iff", xs /\ valid /\ o.cls # "timeout" /\ ~ovl /\ (ok # disc.accept))
+  \cup F("rule_named", xs /\ valid /\ ~ovl /\ ~disc.accept /\ o.cls = "jaqal_error" /\ o.family \notin disc.rules)
+  \cup F("n_subcircuits", xs /\ valid /\ shouldRun /\ ok /\ Len(o.subs) # Len(disc.pairs))
   \* ---- C13
-  \cup F("reject_iff_overlap", valid /\ o.cls # "timeout" /\
+  \cup F("reject_iff_overlap", xs /\ valid /\ o.cls # "timeout" /\
             ((ovl /\ ok) \/ (ovl /\ o.cls = "jaqal_error" /\ o.family \notin ({"overlap"} \cup disc.rules))))
   \* ---- C08
-  \cup (IF valid /\ shouldRun /\ ok /\ vis.indomain
+  \cup (IF xs /\ valid /\ shouldRun /\ ok /\ vis.indomain
         THEN F("visits", [j \in DOMAIN o.readouts |-> o.readouts[j].sub] # vis.visits)
              \cup F("readout_index", \E j \in DOMAIN o.readouts : o.readouts[j].index # j - 1)
              \cup F("hook_visits", o.hooked /\ [j \in DOMAIN o.visits |-> o.visits[j].sub] # vis.visits)
@@ -99,8 +100,29 @@ Clauses2(c) ==
         ELSE {})
   \* ---- hardware output lists (site "outparse"): strings and integers are interpreted identically
   \cup F("str_int_same", c.site = "outparse" /\ ok /\ valid /\ shouldRun /\ vis.indomain /\ [j \in DOMAIN o.readouts |-> o.readouts[j].value] # c.outs)
+  \* ---- C13: used-qubit analysis of the whole circuit and of every top-level statement (site "used")
+  \cup (IF c.site = "used" /\ valid
+        THEN LET env == Env(c.inp, <<>>)
+                 tab == RegTab(c.inp, env)
+                 usedOfStmt(j) == UsedOf(M(c.inp.body[j], c.inp, env, tab, EmptyFn, FALSE, 0), c.inp, AllQ(c))
+                 hasBusy(j) == LET RECURSIVE B(_)
+                                   B(m) == CASE m.k = "G" -> GateCls(c.inp, m.v) = "busy"
+                                             [] m.k \in {"L", "U"} -> B(m.c[1])
+                                             [] m.k \in {"S", "P"} -> \E x \in DOMAIN m.c : B(m.c[x])
+                                             [] OTHER -> FALSE
+                               IN B(M(c.inp.body[j], c.inp, env, tab, EmptyFn, FALSE, 0))
+             IN F("used_exact_circuit", c.used_all.cls # "ok" \/ SeqRange(c.used_all.idxs) # UsedOf(Meaning(c.inp, <<>>), c.inp, AllQ(c)))
+                \cup F("used_exact_statement", \E j \in DOMAIN c.used_stmts :
+                          ~hasBusy(j) /\ (c.used_stmts[j].cls # "ok" \/ SeqRange(c.used_stmts[j].idxs) # usedOfStmt(j)))
+        ELSE {})
+  \* ---- C09: the same program written with explicit prepare_all / measure_all behaves identically (site "explicit")
+  \cup (IF c.site = "explicit"
+        THEN F("same_as_explicit", o.cls # c.obs2.cls \/ o.family # c.obs2.family \/ o.readouts # c.obs2.readouts
+                                   \/ [k \in DOMAIN o.subs |-> <<o.subs[k].k, o.subs[k].vec, o.subs[k].readouts>>] #
+                                      [k \in DOMAIN c.obs2.subs |-> <<c.obs2.subs[k].k, c.obs2.subs[k].vec, c.obs2.subs[k].readouts>>])
+        ELSE {})
   \* ---- C15: views recorded by the harness from the result objects
-  \cup (IF ok THEN
+  \cup (IF xs /\ ok THEN
           F("as_str", \E j \in DOMAIN o.readouts : o.readouts[j].str # BitsOf(o.readouts[j].value, NQ(c)))
           \cup F("by_str_order", \E k \in DOMAIN o.subs :
                    o.subs[k].str_keys # [v \in 1..(2 ^ NQ(c)) |-> BitsOf(v - 1, NQ(c))])
